@@ -804,6 +804,9 @@ func (interp *Interpreter) cfg(root *node, sc *scope, importPath, pkgName string
 					dest.gen = nop
 				case isFuncField(dest):
 					// Setting a struct field of function type requires an extra step. Do not optimize.
+				case n.nleft > 1 && n.nright > 1:
+					// In a multiple assignment, all the values are evaluated before any variable is
+					// assigned, by the assign operation itself: it can not be skipped.
 				case isCall(src) && !isInterfaceSrc(dest.typ) && n.kind != defineStmt:
 					// Call action may perform the assignment directly.
 					if dest.typ.id() != src.typ.id() {
